@@ -278,6 +278,7 @@ def Mem.read (m : Mem) (ch addr : Int) (count : Nat) : List Nat :=
 /-- the instrument executes a command -/
 def Mem.exec (m : Mem) : Command → Mem
   | .data ch addr _ _ bits => m.write ch addr bits
+  | .rst => Mem.zero          -- the simulated instrument of the harness forgets its pattern memory on `*RST`
   | _ => m
 
 def Mem.execAll (m : Mem) (cs : List Command) : Mem := cs.foldl Mem.exec m
